@@ -78,7 +78,10 @@ Definition final_check (rows cols : N) (ops : list op) : bool * bool :=
              | Some p => (list_eqb kv_eqb (p_content p) (spec_content None ops []) && (p_ty p =? 5) && (p_version p =? 3)
                           && (p_len p =? len (p_content p))
                           && match p_checksum p with Some c => c =? summer0 (firstn (length bs - 4) bs) | None => false end,
-                          wf_fst_b bs)
+                          wf_fst_b bs && forallb (fun x => x <? 256) bs &&
+                          (let g := graph_of (node_table (p_nodes p)) in
+                           forallb (fun x => forallb (fun t => match min_value (L g (t_addr t)) with Some 0 => true | _ => false end)
+                                                     (sn_trans (snd x))) (p_nodes p)))
              | None => (false, false) end
   | _ => (false, false) end.
 
@@ -94,6 +97,7 @@ Definition ops4 := [OpInsert [] 3].
 Definition ops5 : list op := [].
 Definition ops6 := [OpInsert [97;97] 1; OpInsert [97;98] 1; OpInsert [98;97] 1;OpInsert [98;98] 1; OpInsert [99;97;97] 1; OpInsert [99;97;98] 1].
 Definition geos : list (N * N) := [(10000, 2); (1, 1); (0, 0); (3, 1); (2, 3); (1, 5); (7, 0)].
-Definition all_tests := map (fun g => map (allb (fst g) (snd g)) [ops1; ops2; ops3; ops4; ops5; ops6]) geos.
+Definition ops7 := [OpInsert [1] 5; OpInsert [2] 7; OpAdd [2]; OpAdd [2;1]; OpAdd [2;1]; OpInsert [3] 9].
+Definition all_tests := map (fun g => map (allb (fst g) (snd g)) [ops1; ops2; ops3; ops4; ops5; ops6; ops7]) geos.
 Eval vm_compute in all_tests.
 Eval vm_compute in (fst (run_check (new_builder 5 1 1) None [] ops2)).
